@@ -27,7 +27,11 @@
  */
 #include "stderroutput.h"
 
+#include "snoopy.h"
+
+#include <signal.h>
 #include <stdio.h>
+#include <time.h>
 
 
 
@@ -46,5 +50,31 @@
  */
 int snoopy_output_stderroutput (char const * const logMessage, __attribute__((unused)) char const * const arg)
 {
-    return fprintf(stderr, "%s\n", logMessage);
+    int              charCount;
+    sigset_t         sigpipeSet;
+    sigset_t         pendingSet;
+    sigset_t         origMask;
+    int              sigpipeWasPending;
+    struct timespec  noWait = { 0, 0 };
+
+    /*
+     * If STDERR is a pipe whose reading end is gone, writing to it raises SIGPIPE, which
+     * (by default) kills the process that is calling exec(). Logging must never do that:
+     * block SIGPIPE for this thread while writing, and if our write generated one,
+     * consume it before the original signal mask is restored.
+     */
+    sigemptyset(&sigpipeSet);
+    sigaddset(&sigpipeSet, SIGPIPE);
+    sigpending(&pendingSet);
+    sigpipeWasPending = sigismember(&pendingSet, SIGPIPE);
+    pthread_sigmask(SIG_BLOCK, &sigpipeSet, &origMask);
+
+    charCount = fprintf(stderr, "%s\n", logMessage);
+
+    if (1 != sigpipeWasPending) {
+        sigtimedwait(&sigpipeSet, NULL, &noWait);
+    }
+    pthread_sigmask(SIG_SETMASK, &origMask, NULL);
+
+    return charCount;
 }
